@@ -221,3 +221,117 @@ void h_mgr_cb(void)
 	if (g_grp[cg].status == RTR_MGR_ESTABLISHED && pre[cg] == RTR_MGR_ERROR)
 		CANARY("recovery from error reachable");
 }
+
+/* ------------------------------------------------------------------ configuration checks (C15, first sentence) */
+static unsigned int g_inits, g_pfx_frees, g_spki_frees;
+int rtr_init(struct rtr_socket *s, struct tr_socket *tr, struct pfx_table *pt, struct spki_table *st, const unsigned int rf,
+	     const unsigned int ex, const unsigned int rt, enum rtr_interval_mode m, rtr_connection_state_fp fp, void *c, void *g)
+{
+	g_inits++;
+	s->connection_state_fp = fp;
+	s->connection_state_fp_param_config = c;
+	s->connection_state_fp_param_group = g;
+	s->state = RTR_CLOSED;
+	s->last_update = 0;
+	return VND_BOOL() ? RTR_SUCCESS : RTR_INVALID_PARAM;
+}
+void pfx_table_init(struct pfx_table *t, pfx_update_fp fp)
+{
+}
+void spki_table_init(struct spki_table *t, spki_update_fp fp)
+{
+}
+void pfx_table_free(struct pfx_table *t)
+{
+	g_pfx_frees++;
+}
+void spki_table_free(struct spki_table *t)
+{
+	g_spki_frees++;
+}
+int pthread_rwlock_init(pthread_rwlock_t *l, const pthread_rwlockattr_t *a)
+{
+	return VND_BOOL() ? 0 : 1;
+}
+void *lrtr_malloc(size_t size)
+{
+	if (VND_BOOL())
+		return NULL;
+	void *p = malloc(size);
+
+	ASSUME(p != NULL);
+	return p;
+}
+void lrtr_free(void *p)
+{
+	free(p);
+}
+/* libc qsort, ASSUMED contract: the array ends up a permutation sorted by the comparator (here: insertion sort
+ * for the at most three groups of the stated domain) */
+void qsort(void *base, size_t n, size_t size, int (*cmp)(const void *, const void *))
+{
+	struct rtr_mgr_group *a = base;
+
+	__CPROVER_assert(size == sizeof(struct rtr_mgr_group) && n <= NGMAX, "qsort on the group array");
+	for (unsigned int i = 1; i < NGMAX; i++)
+		for (unsigned int j = i; j > 0 && j < n; j--)
+			if (cmp(&a[j - 1], &a[j]) > 0) {
+				struct rtr_mgr_group t = a[j - 1];
+
+				a[j - 1] = a[j];
+				a[j] = t;
+			}
+}
+
+void h_mgr_init(void)
+{
+	g_tape_n = 0;
+	struct rtr_mgr_group groups[NGMAX];
+	const unsigned int n = VND_U8() % (NGMAX + 1);
+	bool dup = false, empty = false;
+
+	for (unsigned int g = 0; g < NGMAX; g++) {
+		groups[g].sockets = g_sockp[g];
+		groups[g].sockets_len = VND_U8() % (NSMAX + 1);
+		groups[g].preference = VND_U8();
+		groups[g].status = (enum rtr_mgr_status)(VND_U8() & 3);
+		for (unsigned int i = 0; i < NSMAX; i++)
+			g_sockp[g][i] = &g_sock[g][i];
+		if (g < n && groups[g].sockets_len == 0)
+			empty = true;
+		for (unsigned int h = 0; h < NGMAX; h++)
+			if (h < g && g < n && groups[h].preference == groups[g].preference)
+				dup = true;
+	}
+	struct rtr_mgr_config *conf = (struct rtr_mgr_config *)&g_conf; /* any non-NULL junk */
+	int r = rtr_mgr_init(&conf, groups, n, 3600, 7200, 600, NULL, NULL, NULL, NULL);
+
+	if (n == 0 || dup || empty)
+		CHECK(r != RTR_SUCCESS, "C15 initialisation rejects an empty group list, groups without sockets and duplicate preference values");
+	if (r != RTR_SUCCESS) {
+		CHECK(conf == NULL, "C15 a rejected configuration hands out no configuration object");
+	} else {
+		CHECK(conf != NULL && conf->len == n, "C15 an accepted configuration holds all groups");
+		tommy_node *node = tommy_list_head(&conf->groups->list);
+		unsigned int cnt = 0;
+		int last = -1;
+
+		for (unsigned int k = 0; k < NGMAX; k++)
+			if (node) {
+				struct rtr_mgr_group_node *gn = node->data;
+
+				CHECK((int)gn->group->preference > last, "C15 groups are presented in ascending preference order");
+				CHECK(gn->group->status == RTR_MGR_CLOSED, "C15 every group starts CLOSED");
+				last = gn->group->preference;
+				cnt++;
+				node = node->next;
+			}
+		CHECK(cnt == n && node == NULL, "C15 the list holds exactly the configured groups");
+	}
+	if (r == RTR_SUCCESS && n == 3)
+		CANARY("three groups accepted reachable");
+	if (r != RTR_SUCCESS && dup && !empty)
+		CANARY("duplicate preference rejected reachable");
+	if (r != RTR_SUCCESS && empty)
+		CANARY("empty group rejected reachable");
+}
